@@ -15,7 +15,29 @@ from hugr.utils import BiMap, NotBijection
 from vrf.lemma import P, lemma
 from vrf.symx import sym, symmap
 
-U = [0, "", 1, "a"]
+class _Atoms:
+    """The 4-atom universe: two falsy singletons and two values that are rebuilt on every access, so that a key passed to an
+    operation is EQUAL to the stored one but not the same object (ints outside the small-int cache, runtime-built tuples)."""
+
+    def __len__(self):
+        return 4
+
+    def __getitem__(self, i):
+        if i == 0:
+            return 0
+        if i == 1:
+            return ""
+        if i == 2:
+            return int("100000") + 1
+        if i == 3:
+            return tuple([7, "a"])
+        raise IndexError(i)
+
+    def __iter__(self):
+        return iter([self[i] for i in range(4)])
+
+
+U = _Atoms()
 
 
 def _state(maxpairs):
@@ -56,7 +78,7 @@ def _arg(name):
     return U[sym.concretize(sym.int(name, 0, len(U) - 1))]
 
 
-@lemma("C18", bounds="universe of 4 atoms {0,'',1,'a'}, pre-state any bijection with <= 3 pairs (quick) / 4 (thorough)",
+@lemma("C18", bounds="universe of 4 atoms {0, '', 100001, (7,'a')} (the last two rebuilt on every access: equal but not identical objects), pre-state any bijection with <= 3 pairs (quick) / 4 (thorough)",
        outside="universes with more than 4 distinct atoms (covered by the *_unbounded variants for integer atoms)")
 def insert_left_step():
     b, model = _state(P(3, 4))
